@@ -97,6 +97,26 @@ theorem C01_grid_faithful (t : TD α) (h : t.Inv) :
     t.numRows = t.grid.length ∧ t.numCols = gcols t.grid ∧ t.data = t.grid.flatten :=
   ⟨h.grid_length.symm, (hs_headC t h).symm, h.data_eq_flatten_grid⟩
 
+/-- **the outcome of an in-place call is the plain model's acceptance**: on an owned array a call succeeds exactly when its
+    arguments are valid for the grid and the caller code inside a sort does not panic (`MOp.gok`); otherwise it panics -/
+theorem C01_inplace_outcome (e : HEnv) (he : e.ok) (t : TD α) (h : t.Inv) (op : MOp α) (hop : (HOp.inplace op).wf)
+    (hfit : (HOp.inplace op).fits e t) :
+    (op.gok t.grid = true → hres e t (.inplace op) = .ok ()) ∧
+    (op.gok t.grid = false → hres e t (.inplace op) = .error .panic ∧ hstep e t (.inplace op) = t) := by
+  have _ := he
+  exact hs_inplace_outcome e t h op hop hfit
+
+/-- **a block of calls on a view that is cut short**: when the calls `pre` succeed and the next call `bad` fails, the array is
+    exactly as after the block `pre` alone, whatever follows `bad` in the block -/
+theorem C01_block_prefix (e : HEnv) (he : e.ok) (t : TD α) (h : t.Inv) (s w : Nat × Nat) (pre rest : List (MOp α)) (bad : MOp α)
+    (hop : (HOp.viaView s w (pre ++ bad :: rest)).wf)
+    (hpre : hres e t (.viaView s w pre) = .ok ())
+    (hbad : hres e (hstep e t (.viaView s w pre)) (.viaView s w [bad]) ≠ .ok ()) :
+    hstep e t (.viaView s w (pre ++ bad :: rest)) = hstep e t (.viaView s w pre) ∧
+    hres e t (.viaView s w (pre ++ bad :: rest)) = .error .panic := by
+  have _ := he
+  exact hs_block_prefix e t h s w pre rest bad hop hpre hbad
+
 /-- non-vacuity: a concrete history (insert a row into the empty array, push a column, sort by row 0 descending, remove column 0
     pulling one item from the back, leak a row drain) runs through the Impl-model and the plain model to the same grid -/
 example :
